@@ -47,6 +47,8 @@ class W15(World):
             Fluent("q1", R(Fraction(1, 2), Fraction(7, 3)), environment=self.env),
             Fluent("q2", R(Fraction(-9, 4), Fraction(-1, 10 ** 9 + 7)), x=self.T0, environment=self.env),
             Fluent("z0", I(0, 0), environment=self.env),
+            # 0 strictly inside, |lower| != |upper| (the square of a corner is then not the minimum of the square)
+            Fluent("s0", I(-2, 3), environment=self.env),
         ]
         for f in extra:
             self.fluents.append(f)
@@ -402,7 +404,7 @@ def targeted(w, b, g):
     add(OK.DIV, [c(1), c(3)])
     add(OK.DIV, [c(10 ** 400), c(3)])
     add(OK.DIV, [c(-7), c(Fraction(-2, 3))])
-    for name in ["i0", "i1", "r0", "i2", "i3", "r1", "r2", "h0", "n0", "n1", "q0", "q1", "q2", "z0"]:
+    for name in ["i0", "i1", "r0", "i2", "i3", "r1", "r2", "h0", "n0", "n1", "q0", "q1", "q2", "z0", "s0"]:
         x = fl(name)
         huge = 10 ** 400 if name in ("i0", "i2", "r1", "q0") else 2 ** 70 + 1     # 400-digit rationals are slow inside Coq
         for d in [3, -3, Fraction(1, 3), Fraction(-7, 2), huge, -(2 ** 53) - 1, 0]:
@@ -435,6 +437,79 @@ def targeted(w, b, g):
     add(OK.TIMES, [fl("z0"), fl("r1")])
     add(OK.TIMES, [fl("r1"), fl("z0"), fl("i2")])
     return out
+
+
+def repeated(w, b, g, rng, count):
+    """the same sub-expression used twice (or three times) by one operator: e*e, e*e*e, e+e, e-e, e/e, (e*e)*e, (e*e)-e ...
+    for every numeric leaf e (bounded / half-bounded / unbounded / straddling 0 / sign-definite / zero-width), for small compound
+    e over those leaves, and for `count` random e.  The ExpressionManager hash-conses, so the operands are the very same FNode;
+    the value of such a node depends on ONE value of e, which is what an interval rule that looks at operand identity must
+    still enclose (e.g. e*e is 0 when e is 0, although no corner product is 0 when 0 is strictly inside the interval of e)."""
+    OK, em = b.OK, w.em
+    out = []
+
+    def add(kind, kids):
+        if any(k is None for k in kids):
+            return None
+        n, s, o = b.mk(kind, kids)
+        out.append((s, o, n))
+        return (n, s) if n is not None else None
+
+    def c(v):
+        return b.leaf(em.Int(v) if isinstance(v, int) else em.Real(Fraction(v)))
+
+    def shapes(e, full):
+        sq = add(OK.TIMES, [e, e])
+        add(OK.MINUS, [e, e])
+        add(OK.PLUS, [e, e])
+        add(OK.DIV, [e, e])
+        if full:
+            add(OK.TIMES, [e, e, e])
+            add(OK.PLUS, [e, e, e])
+            if sq is not None:
+                add(OK.TIMES, [sq, e])
+                add(OK.TIMES, [sq, sq])
+                add(OK.MINUS, [sq, e])
+                add(OK.PLUS, [sq, e, c(-1)])
+                add(OK.DIV, [sq, c(-2)])
+
+    leaves = []
+    for f in w.fluents:
+        if f.type.is_int_type() or f.type.is_real_type():
+            kids = [b.leaf(em.ObjectExp(w.objects_of(p.type)[0])) for p in f.signature]
+            n, s, o = b.mk(OK.FLUENT_EXP, kids, f)
+            leaves.append((n, s))
+    for p in w.params:
+        if p.type.is_int_type() or p.type.is_real_type():
+            leaves.append(b.leaf(em.ParameterExp(p)))
+    for x in leaves:
+        shapes(x, True)
+        for e in (add(OK.PLUS, [x, c(1)]), add(OK.TIMES, [x, c(Fraction(-1, 2))]), add(OK.MINUS, [x, rng.choice(leaves)])):
+            if e is not None:
+                shapes(e, False)
+    for i in range(count):
+        g.last = None
+        e = g.num(rng.choice([1, 1, 3, 3, 4]))
+        if e is not None:
+            shapes(e, rng.random() < 0.3)
+    return out
+
+
+def zero_point(w, fl, par):
+    """the interpretation of the oracle pool in which every numeric leaf takes the value of its declared domain that is nearest
+    to 0 (0 itself whenever the domain contains it: an INTERIOR point of every domain that straddles 0, which neither the
+    corner interpretations nor - reliably - the random interior ones contain)"""
+    def nearest(t, old):
+        if not (t.is_int_type() or t.is_real_type()):
+            return old
+        lo, hi = t.lower_bound, t.upper_bound
+        v = 0
+        if lo is not None and lo > 0:
+            v = lo
+        if hi is not None and hi < 0:
+            v = hi
+        return v if t.is_int_type() else Fraction(v)
+    return ({k: nearest(k[0].type, v) for k, v in fl.items()}, {p: nearest(p.type, v) for p, v in par.items()})
 
 
 def ill_typed(w, b, g, rng, count):
@@ -538,6 +613,8 @@ def run(ctx):
             records.append((g.last[0], g.last[1], None, "random-num-rejected"))
     for s, o, n in ill_typed(w, b, g, rng, n_ill):
         records.append((s, o, n, "operand-kinds"))
+    for s, o, n in repeated(w, b, g, rng, 40 if ctx.quick else 2500):
+        records.append((s, o, n, "repeated-subexpression"))
     for i in range(n_bool):
         try:
             e = w.gen_bool(rng.choice([1, 2, 3]), ())
@@ -583,9 +660,11 @@ def run(ctx):
 
     # ---- pool of interpretations: corners, random interior points
     pool_py, pool_g = [], []
-    n_pool = 8 if ctx.quick else 24
+    n_pool = 9 if ctx.quick else 25       # corners (even i) / random interior points (odd i) / the zero point (last)
     for i in range(n_pool):
         fl, par, ifun = w.rand_interp(corner=(i % 2 == 0))
+        if i == n_pool - 1:
+            fl, par = zero_point(w, fl, par)      # last interior interpretation: 0 (or the value nearest to 0) for every numeric leaf
         I = {"fl": fl, "par": par, "ifun": ifun, "objs": w.objs_table()}
         pool_py.append(I)
         pool_g.append(ser_finterp(fl, par, {}, ifun, w.objs_table(), names))
